@@ -291,3 +291,48 @@ func ZZVerifC19TextBroken() {
 	}
 	nd.Reach("C19/text/broken-end")
 }
+
+// ZZVerifC19TextTwoLayouts: two layouts L and M (overlapping definitions), two views, TR
+// requests View(layout, view) with symbolic layout and view names in any
+// order, caching on or off: every answer shows helper < the REQUESTED layout <
+// the requested view (a template is never answered from the cache for another
+// layout/view pair).
+func ZZVerifC19TextTwoLayouts() {
+	zzFixed = true
+	w := zzBuildWorld()
+	zzFixed = false
+	var layM zzLayer
+	layM[1], layM[3] = "M-"+zzNames[1], "M-"+zzNames[3]
+	nd.Assume(w.fs.WriteFile("layouts/M/m.tmpl", []byte(zzFile(layM)), filesystem.DefaultUnixFileMode) == nil)
+	cached := nd.Choose("cached", 2) == 1
+	p := NewProvider(w.fs, "helpers", "layouts/{name}", "views/{name}", ".tmpl", nil, cached)
+	reqs := nd.Param("TR", 2)
+	for i := 0; i < reqs; i++ {
+		layoutName, lay := "L", w.layout
+		if nd.String("layout", 1) == "M" {
+			layoutName, lay = "M", layM
+		}
+		view := zzViewName("view")
+		t, err := p.View(layoutName, view)
+		nd.Assert(err == nil && t != nil, "C19/text/twolayouts-view-builds")
+		if err != nil || t == nil {
+			return
+		}
+		got := zzTable(func(n string) (string, bool) {
+			if t.Lookup(n) == nil {
+				return "", false
+			}
+			var sb strings.Builder
+			if err := t.ExecuteTemplate(&sb, n, nil); err != nil {
+				return "", false
+			}
+			return sb.String(), true
+		})
+		want := zzOverlay(w.helper, lay, w.viewV)
+		if view != "v" {
+			want = zzOverlay(w.helper, lay, w.viewW)
+		}
+		nd.Assert(got == want, "C19/text/twolayouts-view-of-requested-layout")
+	}
+	nd.Reach("C19/text/twolayouts-end")
+}
